@@ -25,6 +25,18 @@ Enumerated space
      and shifted again.  Each history runs in its own forked process (no history can see another's mutations; the witness
      replays in a fresh process).
 
+  F  encode histories (an encode result must be a function of the value alone, also after an encode that failed): for every
+     history payload p with decoding d, one forked process runs the op sequence
+       for every failing edit e: fail(e), check            (this is also the interleaving fail, succeed, fail, succeed, ...)
+       fail x3 (different members), check, check; foreign, fail, check; for every foreign failing encode: foreign, check
+     fail(e) = template.serialize of a copy of d with ONE member replaced by an out-of-domain value, exception caught.  The
+     edits are derived from the template, member by member: any object() value, max+1 / min-1 for integer members (through
+     enum / flag / state adapters), 1e40 for F32, wrong-length fixed bytes; an edit is used only if a private probe shows that
+     the template raises on it AFTER having written >= 1 byte.  foreign = a failing encode through another registered
+     little-endian subfield serializer (TextureAnim Face=1000, ExtraParams bad light, ImprovedTerse State=300, PSBlock
+     BurstPartCount=999), probed the same way.  check = template.serialize(d) == p, template.deserialize(p) and fast.read(p)
+     still equal the pristine decoding.  The witness is the op prefix executed in that process.
+
 A substituted / truncated payload is *well-formed* iff the template decodes it (lazy members forced) and re-encodes it
 to itself; everything else is counted (rejected / non-canonical) and not judged.
 
@@ -45,6 +57,9 @@ Clauses (for every well-formed payload p; t = template.deserialize(p))
                     decoding of q taken before the edit (normaliser: the reference normal form of it), and for the two decoders
                     template.serialize(D(q)) == q.  site = fast.read:<member> / template:<member> / normalize:<member> /
                     cache-normalize:<member>, naming the decoder whose later result was wrong
+  encode-independent  F: every check op of an encode history.  site = template.serialize:after-failed-encode:<compressed-member |
+                    foreign:<Serializer>> (the kind of the last failed encode before the check; the member is in the detail),
+                    template.deserialize:after-failed-encode / fast.read:after-failed-encode for the decoders
   cache-bytes       D: lookup_object_data(local_id, crc) returns exactly p (so the cache path normalises the same bytes)
 
 PCode values outside the enum (reachable only through byte substitution at offset 20): the fast reader raises
@@ -986,6 +1001,157 @@ def _work_history(item: Tuple[int, str]):
     return part.dump()
 
 
+# ------------------------------------------------------------------------------------------- F: encode histories
+def _leaf_spec(spec: Any) -> Any:
+    if isinstance(spec, se.OptionalFlagged):
+        spec = spec._ser_spec
+    seen = 0
+    while isinstance(spec, se.Adapter) and getattr(spec, "_child_spec", None) is not None and seen < 8:
+        spec = spec._child_spec
+        seen += 1
+    return spec
+
+
+def bad_values_for(spec: Any) -> List[Tuple[str, Any]]:
+    """Out-of-domain values for one template member, derived from its spec (whether they really fail is probed)."""
+    out: List[Tuple[str, Any]] = [("object", object())]
+    leaf = _leaf_spec(spec)
+    if isinstance(leaf, se.SerializablePrimitive):
+        if isinstance(leaf.default_value(), float):
+            out.append(("1e40", 1e40))
+        else:
+            out.append(("max+1", leaf.max_val + 1))
+            out.append(("min-1", leaf.min_val - 1))
+    if isinstance(leaf, se.BytesFixed):
+        out.append(("short-bytes", b"\x00" * max(0, leaf.calc_size() - 1)))
+    return out
+
+
+def _probe_fails_after_writing(template: Any, value: Any) -> bool:
+    w = se.BufferWriter("<")
+    try:
+        w.write(template, value)
+    except Exception:
+        return len(w.buffer) > 0
+    return False
+
+
+def foreign_failures() -> List[Tuple[str, Any, Any]]:
+    TA = tmpls.TextureAnim
+    cands = [
+        ("TextureAnimSerializer", tmpls.TextureAnimSerializer,
+         TA(Mode=tmpls.TextureAnimMode.ON, Face=1000, SizeX=1, SizeY=1, Start=0.0, Length=1.0, Rate=1.0)),
+        ("ObjectUpdateExtraParamsSerializer", tmpls.ObjectUpdateExtraParamsSerializer,
+         {EP.SCULPT: EXTRA["sculpt"][EP.SCULPT], EP.LIGHT: {"Color": b"\x01\x02\x03\x04", "Radius": "x", "Cutoff": 0.5, "Falloff": 0.75}}),
+        ("ImprovedTerseObjectUpdateDataSerializer", tmpls.ImprovedTerseObjectUpdateDataSerializer, {"ID": 1, "State": 300}),
+        ("PSBlockSerializer", tmpls.PSBlockSerializer, TaggedUnion(86, {"PSys": psys(BurstPartCount=999), "PData": pdata()})),
+    ]
+    return [(n, ser, v) for n, ser, v in cands if ser.ENDIANNESS == "<" and _probe_fails_after_writing(ser.TEMPLATE, v)]
+
+
+def failing_edits(d: Dict[str, Any]) -> Dict[str, Dict[str, Any]]:
+    """op name -> edited copy of d on which template.serialize raises after having written at least one byte."""
+    out: Dict[str, Dict[str, Any]] = {}
+    for member, spec in SER.TEMPLATE._template_spec.items():
+        for kind, bad in bad_values_for(spec):
+            dd = dict(d)
+            dd[member] = bad
+            if _probe_fails_after_writing(SER.TEMPLATE, dd):
+                out[f"fail:{member}:{kind}"] = dd
+    return out
+
+
+def encode_history_ops(edits: Dict[str, Any], foreign: List[Tuple[str, Any, Any]]) -> List[str]:
+    ops: List[str] = []
+    names = list(edits)
+    for n in names:
+        ops += [n, "check"]
+    if len(names) >= 3:
+        ops += [names[0], names[len(names) // 2], names[-1], "check", "check"]
+    for fn, _, _ in foreign:
+        ops += [f"foreign:{fn}", "check"]
+    if foreign and names:
+        ops += [f"foreign:{foreign[0][0]}", names[-1], "check", names[0], f"foreign:{foreign[-1][0]}", "check"]
+    return ops
+
+
+def run_encode_history(part: Part, label: str, p: bytes, ops: Optional[List[str]] = None) -> None:
+    t = SER.deserialize(None, p)
+    d = {k: force(v) for k, v in t.items()}
+    ref = copy.deepcopy(d)
+    if SER.serialize(None, d) != p:
+        raise HarnessError(f"encode-history payload {label} is not canonical")
+    edits = failing_edits(d)
+    foreign = foreign_failures()
+    fmap = {f"foreign:{n}": (ser, v) for n, ser, v in foreign}
+    if ops is None:
+        if len(edits) < 20 or not foreign:
+            raise HarnessError(f"vacuous encode history: {len(edits)} failing edits, {len(foreign)} foreign failing encodes")
+        ops = encode_history_ops(edits, foreign)
+    part.count("F_histories")
+    part.count("F_failing_edits", len(edits))
+    done: List[str] = []
+    last_fail = "none"
+    for op in ops:
+        done.append(op)
+        if op != "check":
+            try:
+                if op in fmap:
+                    fmap[op][0].serialize(None, fmap[op][1])
+                elif op in edits:
+                    SER.serialize(None, edits[op])
+                else:
+                    part.count("F_ops_unavailable_on_this_tree")  # a replayed op this tree does not reject any more
+                    continue
+                part.count("F_expected_failures_that_succeeded")
+            except Exception:
+                part.count("F_failed_encodes")
+            last_fail = op
+            continue
+        part.count("evaluations")
+        part.count("F_checks")
+        w = {"kind": "encode-history", "label": label, "hex": p.hex(), "ops": list(done)}
+        which = "none" if last_fail == "none" else (last_fail if last_fail.startswith("foreign:") else "compressed-member")
+        bad = False
+        try:
+            enc = SER.serialize(None, d)
+        except Exception as e:
+            enc = None
+            part.violation("encode-independent", f"template.serialize:after-failed-encode:{which}", w,
+                           f"after the failed encode {last_fail!r} the next encode of the untouched decoding raised {e!r}")
+            bad = True
+        if enc is not None and enc != p:
+            i = next((j for j in range(min(len(p), len(enc))) if p[j] != enc[j]), min(len(p), len(enc)))
+            part.violation("encode-independent", f"template.serialize:after-failed-encode:{which}", w,
+                           f"after the failed encode {last_fail!r}: template.serialize(template.deserialize(p)) is {len(enc)} B, payload "
+                           f"{len(p)} B, first difference at offset {i}: {enc[i:i + 8].hex()} vs {p[i:i + 8].hex()}")
+            bad = True
+        for dname, fn in (("template.deserialize", lambda: SER.deserialize(None, p)), ("fast.read", lambda: FAST.read(p))):
+            try:
+                r = fn()
+                msgs = [m for m in (same(force(r[k]), ref[k], k) if k in r else f"{k} missing" for k in ref) if m]
+                if set(r) != set(ref):
+                    msgs.append(f"keys {sorted(set(r) ^ set(ref))}")
+            except Exception as e:
+                msgs = [f"raised {e!r}"]
+            if msgs:
+                part.violation("encode-independent", f"{dname}:after-failed-encode", w, f"after {last_fail!r}: {msgs[0]}")
+                bad = True
+        part.outcome(("F", label, len(done), which, "violation" if bad else "ok"))
+        if not bad:
+            part.mark_nontrivial(("F", label, len(done)))
+
+
+def _work_encode_history(hi: int):
+    part = Part()
+    label, p = _HIST[hi]
+    run_encode_history(part, label, p)
+    if hi == 1:
+        part.sample({"case": f"F encode history {label}", "failing_edits": part.counters.get("F_failing_edits"),
+                     "checks": part.counters.get("F_checks")}, limit=1)
+    return part.dump()
+
+
 def fresh_process_map(fn, items, jobs: int):
     """Ordered map, one freshly forked process per item: an in-place edit made by one history can never reach another."""
     import multiprocessing as mp
@@ -1051,7 +1217,12 @@ def run(run: Run):
     for d in fresh_process_map(_work_history, [(hi, src) for hi in range(len(_HIST)) for src in SOURCES], run.jobs):
         run.merge(d)
 
+    for d in fresh_process_map(_work_encode_history, list(range(len(_HIST))), run.jobs):
+        run.merge(d)
+
     c = run.counters
+    if c.get("F_histories", 0) != len(_HIST) or c.get("F_failed_encodes", 0) == 0 or c.get("F_expected_failures_that_succeeded", 0):
+        raise HarnessError("encode histories did not run as planned (an encode that was probed to fail succeeded, or none ran)")
     if c.get("E_histories", 0) != len(_HIST) * len(SOURCES):
         raise HarnessError("decode histories did not all run")
     if c.get("wellformed", 0) < c.get("A_flag_x_pcode", 0) or c.get("compared", 0) == 0:
@@ -1069,11 +1240,15 @@ def run(run: Run):
         "section; State: %s wire values x 6 PCodes; C: %s single-byte substitutions at every offset, every truncation and 3 one-byte "
         "extensions of %d representative payloads (%d bytes); D: the representatives through a .slc cache file; E: %d decode histories (%d payloads x 3 source decoders: decode, deep in-place "
         "edit of the result, then fast / template / normaliser / normaliser-over-cache-file decode the same payload, a twin and a "
-        "shifted payload sharing its section bytes; one forked process per history). distinct_nontrivial = "
+        "shifted payload sharing its section bytes; one forked process per history); F: %d encode histories (one per payload and process): "
+        "%d failed encodes (every template member x out-of-domain values that make template.serialize raise after >= 1 byte, plus 4 "
+        "other subfield serializers), each followed by %d checks that template.serialize(decoding) == payload and both decoders are "
+        "unaffected. distinct_nontrivial = "
         "distinct well-formed (case, flags, pcode | representative, offset, value) inputs on which both decoders were compared"
         % (1 << len(FLAG_LIST), len(PCODES), len(_FACTORS), "all 2^10/2^11" if _THOROUGH else "22-24 covering (alone, all, +1, all-1)",
            "all 256" if _THOROUGH else str(len(STATE_ALPHABET_QUICK)), "all 255" if _THOROUGH else "5",
-           len(_REPS), sum(len(p) for _, p, _ in _REPS), len(_HIST) * len(SOURCES), len(_HIST)))
+           len(_REPS), sum(len(p) for _, p, _ in _REPS), len(_HIST) * len(SOURCES), len(_HIST),
+           len(_HIST), c.get("F_failed_encodes", 0), c.get("F_checks", 0)))
     run.assumptions += [
         "domain = payloads the template's own serialize emits from generated dicts, plus single-byte substitutions / truncations / "
         "one-byte extensions of 32 of them; a mutated payload is judged only if the template decodes it and re-encodes it to itself",
@@ -1086,6 +1261,9 @@ def run(run: Run):
         "decode histories: depth 3 (decode, edit, decode), one edit pattern that touches every mutable member reachable from the "
         "result; histories are independent (fresh forked process each); the pristine reference is a deep copy of the template's "
         "decoding taken before the edit and checked to re-encode to the payload",
+        "encode histories: failures are single-member out-of-domain edits of a decoded value (and 4 fixed bad values for other "
+        "subfield serializers) that a private probe confirms to raise after partial output; up to 3 consecutive failures before a check; "
+        "one process per payload, the witness is the executed op prefix",
         "trusted: struct, lazy_object_proxy, copy.deepcopy, the harness's comparison function",
     ]
 
@@ -1095,6 +1273,10 @@ def replay(w):
     if w.get("kind") == "cache":
         reps = [r for r in representatives() if r[0] == w["rep"]]
         check_cache_path(part, reps)
+        return list(part.viol.values())
+    if w.get("kind") == "encode-history":
+        hp = w["hex"] if isinstance(w["hex"], (bytes, bytearray)) else bytes.fromhex(w["hex"])
+        run_encode_history(part, str(w.get("label")), hp, [str(o) for o in w["ops"]])
         return list(part.viol.values())
     if w.get("kind") == "history":
         hp = w["hex"] if isinstance(w["hex"], (bytes, bytearray)) else bytes.fromhex(w["hex"])
